@@ -104,8 +104,59 @@ pub fn start_watchdog(secs: u64, on_hang: fn(&str, &str)) {
         };
         if let Some((d, s)) = stuck {
             on_hang(d, &s);
+            // on_hang returned: the call was confirmed to end (slow, not hanging); give it a new deadline
+            if let Ok(mut w) = WATCH.lock() {
+                for e in w.iter_mut() {
+                    if e.2 == d && e.3 == s {
+                        e.1 = std::time::Instant::now();
+                    }
+                }
+            }
         }
     });
+}
+
+/// `mc one-call <detector> <file>`: one detector call on the text of `file` in a process of its own
+/// (exit 0 when it returns or panics, i.e. when it ends; used to confirm a hang without any other load)
+pub fn one_call(det: &str, file: &str) -> i32 {
+    std::env::set_var("MC_NO_WATCHDOG", "1");
+    crate::util::quiet();
+    let src = match std::fs::read_to_string(file) {
+        Ok(s) => s,
+        Err(_) => return 2,
+    };
+    let d = match by_names(&[det]).into_iter().next() {
+        Some(d) => d,
+        None => return 2,
+    };
+    let _ = crate::util::guarded(|| run(&d, &src, 0));
+    0
+}
+
+/// Does one call of `det` on `src`, alone in a fresh process, end within `secs` seconds?
+/// None = the confirmation itself could not be carried out.
+pub fn ends_in_fresh_process(det: &str, src: &str, secs: u64) -> Option<bool> {
+    let me = std::env::current_exe().ok()?;
+    let f = std::env::temp_dir().join(format!("mc-hang-{}-{}.sol", std::process::id(), crate::util::fnv(src)));
+    std::fs::write(&f, src).ok()?;
+    let mut child = std::process::Command::new(&me).args(["one-call", det, &f.to_string_lossy()]).stdout(std::process::Stdio::null()).stderr(std::process::Stdio::null()).spawn().ok()?;
+    let t0 = std::time::Instant::now();
+    let r = loop {
+        match child.try_wait() {
+            Ok(Some(_)) => break Some(true),
+            Ok(None) => {
+                if t0.elapsed().as_secs() > secs {
+                    let _ = child.kill();
+                    let _ = child.wait();
+                    break Some(false);
+                }
+                std::thread::sleep(std::time::Duration::from_millis(20));
+            }
+            Err(_) => break None,
+        }
+    };
+    let _ = std::fs::remove_file(&f);
+    r
 }
 
 /// Default reaction outside C04: a hanging detector is not this check's property; stop as a
